@@ -1,14 +1,15 @@
 #!/usr/bin/env python3
 """Runs `go test -json` for the given packages of /repo (guard off) and reports
 which tests of BASELINE.json's stable_pass set did not pass. Usage:
-  tools_baseline_cmp.py ./db19/... ./util/...      (default ./...)"""
+  tools_baseline_cmp.py ./db19/... ./util/...      (default ./...)
+VERIF_REPO=<worktree> runs it there instead of /repo."""
 import json, subprocess, sys, os
 pk = sys.argv[1:] or ["./..."]
 b = json.load(open("/root/.vp/BASELINE.json"))
 stable = set(b["stable_pass"])
 env = dict(os.environ, GOFLAGS="-mod=mod", GOPROXY="off")
 env.pop("GOSUMDB", None); env.pop("GOTOOLCHAIN", None)
-p = subprocess.run(["go", "test", "-json", "-vet=off", "-count=1", "-timeout", "25m"] + pk, cwd="/repo", env=env, capture_output=True, text=True)
+p = subprocess.run(["go", "test", "-json", "-vet=off", "-count=1", "-timeout", "25m"] + pk, cwd=os.environ.get("VERIF_REPO", "/repo"), env=env, capture_output=True, text=True)
 res = {}
 pkgs = set()
 for line in p.stdout.splitlines():
